@@ -141,9 +141,30 @@ def replay_src(case, host, assign):
             "print(bad)\nsys.exit(1 if bad else 0)\n")
 
 
+def used_before(case, host):
+    """History: the same multiplier was already generated in this circuit, its high result bits were dropped and the
+    gates nobody reads were removed; the host is re-snapshotted, so the measured call is the second one."""
+    try:
+        res = list(_invoke(case, host.c, [list(o) for o in host.operands]))
+    except Exception:  # noqa: BLE001
+        return
+    used = {x for ops in host.operands for x in ops}
+    keep = set(host.c.outputs) | set(res[: max(1, len(res) // 2)]) | used | set(host.c.inputs)
+    progress = True
+    while progress:
+        progress = False
+        for l in list(host.c.gates):
+            if l not in keep and not host.c.get_gate_users(l):
+                host.c.remove_gate(l)
+                progress = True
+    host.refresh()
+
+
 def check_case(p, case, rnd, timeout_ms):
     host = gencommon.Host(case.get("host", "fresh"), case["widths"], rnd)
     be = case.get("big_endian", False)
+    if case.get("history") == "remove-and-call-again":
+        used_before(case, host)
     desc = f"{case} in {host.before_desc}"
     p.case(("c08", repr(sorted(case.items()))), sample=desc if len(p.samples) < 3 else None)
     outs_before = list(host.c.outputs)
@@ -363,6 +384,11 @@ def make_cases(tier, rnd):
     for mode in MUL_MODES:
         for n in (2, 4, 6):
             cases.append(dict(kind="mul", mode=mode, widths=[n, n], big_endian=bool(n % 4), host="repeat2", alias=True))
+    for mode in MUL_MODES:
+        cases.append(dict(kind="mul", mode=mode, widths=[3, 3], host="fresh", history="remove-and-call-again"))
+        cases.append(dict(kind="mul", mode=mode, widths=[4, 2], big_endian=True, host="host", history="remove-and-call-again"))
+    for mode in SQ_MODES:
+        cases.append(dict(kind="square", mode=mode, widths=[4], host="fresh", history="remove-and-call-again"))
     cases.append(dict(kind="mul_public", mode="KARATSUBA_PLAIN", widths=[5, 4], big_endian=True, host="host"))
     cases.append(dict(kind="mul_public", mode="KARATSUBA_PLAIN", widths=[6, 6], host="fresh"))
     if thorough:
